@@ -147,7 +147,9 @@ var nameFamilies = [][]string{
 }
 
 var advScalars = []string{"yes", "no", "on", "off", "y", "n", "~", "null", "012", "0x1F", "1e3", "1_000", ".inf", "2001-01-01",
-	"1:20", " lead", "trail ", "a: b", "- x", "#c", "tab\there", "multi\nline", "ünï", "{x}", "[y]", "true", "123", "1.5", ""}
+	"1:20", " lead", "trail ", "a: b", "- x", "#c", "tab\there", "multi\nline", "ünï", "{x}", "[y]", "true", "123", "1.5", "",
+	// text that LOOKS like variable syntax (no `vars` are declared: it is plain text)
+	"$$(POD_NAME)", "costs $$5", "$$$$", "$(NOT_A_VAR)", "$", "a$$b"}
 
 func (t *Tree) newID() string {
 	t.nextID++
